@@ -157,18 +157,24 @@ where
         }
     }
 
+    /// `round` is the id of the in-flight fetch round the record was fetched for, `None` for an explicit insert.
+    ///
+    /// Returns `false` without inserting if the record belongs to a fetch round that has been closed in the meantime
+    /// (e.g. by an explicit insert of the same key, whose value must not be replaced by the older fetch).
     #[expect(clippy::type_complexity)]
     fn emplace(
         &mut self,
         record: Arc<Record<E>>,
+        round: Option<usize>,
         garbages: &mut Vec<(Event, Arc<Record<E>>)>,
         notifiers: &mut Vec<Notifier<Option<RawCacheEntry<E, S, I>>>>,
-    ) {
-        *notifiers = self
-            .inflights
-            .lock()
-            .take(record.hash(), record.key(), None)
-            .unwrap_or_default();
+    ) -> bool {
+        let taken = self.inflights.lock().take(record.hash(), record.key(), round);
+        match (taken, round) {
+            (Some(taken), _) => *notifiers = taken,
+            (None, None) => {}
+            (None, Some(_)) => return false,
+        }
 
         if record.properties().phantom().unwrap_or_default() {
             if let Some(old) = self.indexer.remove(record.hash(), record.key()) {
@@ -188,7 +194,7 @@ where
             record.inc_refs(notifiers.len() + 1);
             garbages.push((Event::Remove, record));
             self.metrics.memory_insert.increase(1);
-            return;
+            return true;
         }
 
         let weight = record.weight();
@@ -232,6 +238,8 @@ where
             std::cmp::Ordering::Less => self.metrics.memory_usage.decrease((old_usage - self.usage) as _),
             std::cmp::Ordering::Equal => {}
         }
+
+        true
     }
 
     #[cfg_attr(feature = "tracing", fastrace::trace(name = "foyer::memory::raw::shard::remove"))]
@@ -575,7 +583,7 @@ where
         value: E::Value,
         properties: E::Properties,
     ) -> RawCacheEntry<E, S, I> {
-        self.insert_with_properties_inner(key, value, properties, Source::Outer)
+        self.insert_with_properties_inner(key, value, properties, Source::Outer, None)
     }
 
     fn insert_with_properties_inner(
@@ -584,6 +592,7 @@ where
         value: E::Value,
         mut properties: E::Properties,
         source: Source,
+        round: Option<usize>,
     ) -> RawCacheEntry<E, S, I> {
         let hash = self.inner.hash_builder.hash_one(&key);
         let weight = (self.inner.weighter)(&key, &value);
@@ -602,23 +611,27 @@ where
             hash,
             weight,
         }));
-        self.insert_inner(record, source)
+        self.insert_inner(record, source, round)
     }
 
     #[doc(hidden)]
     #[cfg_attr(feature = "tracing", fastrace::trace(name = "foyer::memory::raw::insert_piece"))]
     pub fn insert_piece(&self, piece: Piece<E::Key, E::Value, E::Properties>) -> RawCacheEntry<E, S, I> {
-        self.insert_inner(piece.into_record(), Source::Memory)
+        self.insert_inner(piece.into_record(), Source::Memory, None)
     }
 
     #[cfg_attr(feature = "tracing", fastrace::trace(name = "foyer::memory::raw::insert_inner"))]
-    fn insert_inner(&self, record: Arc<Record<E>>, source: Source) -> RawCacheEntry<E, S, I> {
+    fn insert_inner(&self, record: Arc<Record<E>>, source: Source, round: Option<usize>) -> RawCacheEntry<E, S, I> {
         let mut garbages = vec![];
         let mut notifiers = vec![];
 
-        self.inner.shards[self.shard(record.hash())]
+        let inserted = self.inner.shards[self.shard(record.hash())]
             .write()
-            .with(|mut shard| shard.emplace(record.clone(), &mut garbages, &mut notifiers));
+            .with(|mut shard| shard.emplace(record.clone(), round, &mut garbages, &mut notifiers));
+        if !inserted {
+            // Not inserted; the returned entry still owns one reference.
+            record.inc_refs(1);
+        }
 
         // Notify waiters out of the lock critical section.
         for notifier in notifiers {
@@ -1321,7 +1334,7 @@ where
                     match optional_fetch.poll_unpin(cx) {
                         Poll::Pending => return Poll::Pending,
                         Poll::Ready(Ok(Some(target))) => {
-                            handle_try! {*this.state, handle_target(target, this.key, this.cache, Source::Disk) }
+                            handle_try! {*this.state, handle_target(target, this.key, this.cache, Source::Disk, *this.id) }
                         }
                         Poll::Ready(Ok(None)) => {
                             handle_try! { *this.state, try_set_required(required_fetch_builder, this.ctx, *this.id, *this.hash, this.key.as_ref().unwrap(), &this.inflights, Ok(None)) }
@@ -1338,7 +1351,7 @@ where
                     match required_fetch.poll_unpin(cx) {
                         Poll::Pending => return Poll::Pending,
                         Poll::Ready(Ok(target)) => {
-                            handle_try! { *this.state, handle_target(target, this.key, this.cache, Source::Outer) }
+                            handle_try! { *this.state, handle_target(target, this.key, this.cache, Source::Outer, *this.id) }
                         }
                         Poll::Ready(Err(e)) => {
                             handle_try! { *this.state, handle_error(e, *this.id, *this.hash, this.key.as_ref().unwrap(), this.inflights) }
@@ -1419,14 +1432,16 @@ where
         key: &mut Once<E::Key>,
         cache: &RawCache<E, S, I>,
         source: Source,
+        id: usize,
     ) -> Try<E, S, I, C> {
+        // The fetched entry is inserted only if this fetch round is still registered, decided under the shard lock.
         match target {
             FetchTarget::Entry { value, properties } => {
                 let key = key.take().unwrap();
-                cache.insert_with_properties_inner(key, value, properties, source);
+                cache.insert_with_properties_inner(key, value, properties, source, Some(id));
             }
             FetchTarget::Piece(piece) => {
-                cache.insert_piece(piece);
+                cache.insert_inner(piece.into_record(), Source::Memory, Some(id));
             }
         }
         Try::Ready
